@@ -96,8 +96,10 @@ def compare_tree(k, t, cfuncs, llfuncs, envs, solver, stats):
     env_r, env_u, env_w, env_n = envs
     ti = trees.type_of(t)
 
+    state = {"model": None}
+
     def model_env(env):
-        m = solver.model()
+        m = state["model"]
         envv = {n: str(m.eval(v, model_completion=True)) for n, v in env.vars.items()}
         envv["ia"] = [str(m.eval(z3.Select(env.arrays["ia"][0], i), model_completion=True)) for i in range(3)]
         envv["ia_len"] = str(m.eval(env.arrays["ia"][1], model_completion=True))
@@ -109,6 +111,17 @@ def compare_tree(k, t, cfuncs, llfuncs, envs, solver, stats):
         stats["queries"] += 1
         t0 = time.perf_counter()
         r = solver.check(z3.Not(zb(claim)))
+        if r == z3.unknown:
+            # the incremental solver's history matters for the resource limit: retry from scratch
+            fresh = z3.Solver()
+            fresh.set("rlimit", 200000000)
+            for c in env_r.pre:
+                fresh.add(c)
+            r = fresh.check(z3.Not(zb(claim)))
+            if r == z3.sat:
+                state["model"] = fresh.model()
+        elif r == z3.sat:
+            state["model"] = solver.model()
         stats["solver_s"] += time.perf_counter() - t0
         return r
 
@@ -143,7 +156,7 @@ def compare_tree(k, t, cfuncs, llfuncs, envs, solver, stats):
                 solver.push()
                 try:
                     for _ in range(6):
-                        model = solver.model()
+                        model = state["model"]
                         if z3.is_false(model.eval(zb(claim2), model_completion=True)):
                             verdict = "differs"
                             envv = model_env(env_r)
@@ -167,6 +180,7 @@ def compare_tree(k, t, cfuncs, llfuncs, envs, solver, stats):
                         stats["queries"] += 1
                         if solver.check(z3.Not(zb(claim))) != z3.sat:
                             break
+                        state["model"] = solver.model()
                 finally:
                     solver.pop()
                 if verdict is None and ring_only(t):
@@ -730,6 +744,25 @@ def confirm_kernel(rec, families):
     elif a["status"] != b["status"]:
         out["confirmed"] = True
         out["where"].append(f"back ends behave differently: llvm {a['status']}, cffi {b['status']}")
+    # sanitizer builds of both emitted texts (gcc for the C text, clang for the LLVM module)
+    from .. import kprog
+
+    comp3 = compile_request(req, kinds=kprog.KINDS3)
+    fns = ["evaluate"] if rec.get("program") in (None, "evaluate") else ["assemble", "compute"]
+    sc = replay.asan_run(comp3, fns, dec)
+    sl = replay.asan_run_llvm(comp3, fns, dec)
+    out["asan_c"] = sc["status"]
+    out["asan_llvm"] = sl["status"]
+    bad = ("sanitizer", "crash", "timeout", "compile-error")
+    if (sc["status"] in bad) != (sl["status"] in bad):
+        out["confirmed"] = True
+        out["where"].append(f"sanitizer builds differ: C {sc['status']}, LLVM {sl['status']}")
+        out["asan_stderr"] = (sc.get("stderr", "") + sl.get("stderr", ""))[-600:]
+    elif sc["status"] == "ok" and sl["status"] == "ok":
+        oc, ol = sc["output"], sl["output"]
+        if oc["indices"] != ol["indices"] or [struct_bits(x) for x in oc["vals"]] != [struct_bits(x) for x in ol["vals"]]:
+            out["confirmed"] = True
+            out["where"].append("sanitizer builds of the C text and the LLVM module return different bits")
     return out
 
 
